@@ -340,8 +340,11 @@ func mutate(rnd *rand.Rand, b []byte) []byte {
 			i := len(b) - 6 - rnd.IntN(12)
 			b[i] = byte(rnd.IntN(256))
 		}
-	case 7: // pure noise
+	case 7: // pure noise, up to well beyond the EDNS(0) size
 		n := rnd.IntN(40)
+		if rnd.IntN(3) == 0 {
+			n = 1000 + rnd.IntN(3000)
+		}
 		b = make([]byte, n)
 		for i := range b {
 			b[i] = byte(rnd.IntN(256))
@@ -370,6 +373,7 @@ func TestGarbage(t *testing.T) {
 	a2 := okMsg("A2", "a", []rr{{T: "CNAME", Ttl: 60}, {T: "A", Ttl: 60, Ip: "a1"}, {T: "A", Ttl: 60, Ip: "a2"}}, "ok", -1)
 	b2 := okMsg("B2", "aaaa", []rr{{T: "AAAA", Ttl: 60, Ip: "b1"}, {T: "AAAA", Ttl: 60, Ip: "b2"}}, "ok", -1)
 	anx := okMsg("Anx", "a", nil, "nx", 10)
+	abig := okMsg("Abig", "a", []rr{{T: "A", Ttl: 60, Ip: "a1"}, {T: "TXT", Ttl: 60, N: 1800}, {T: "A", Ttl: 60, Ip: "a2"}}, "ok", -1)
 	for i := range n {
 		synctest.Test(t, func(t *testing.T) {
 			w, err := newWorld(res, true, in.Seed, i, 2, false, true, 30, 20)
@@ -396,7 +400,7 @@ func TestGarbage(t *testing.T) {
 				if c == nil {
 					break
 				}
-				base := []msg{a2, b2, anx}
+				base := []msg{a2, b2, anx, abig}
 				for k := 0; k < 2 && w.state(r) == "pending"; k++ {
 					raw, err := buildMsg(&base[rnd.IntN(len(base))], "n1", r.id, in.Seed, k)
 					if err != nil {
